@@ -9,6 +9,8 @@ import json
 import os
 import random
 import shutil
+import glob
+import re
 import subprocess
 from concurrent.futures import ThreadPoolExecutor
 
@@ -203,6 +205,134 @@ def compare(case, obs):
     return out
 
 
+ANSI = re.compile(r"\x1b\[[0-9;]*m")
+TAG = re.compile(r"\[(E\d{3}|L\d{4})\]")
+LINT_CANDIDATES = ["examples/collatz.pn", "examples/loop_in_branch.pn", "tests/samples/valid/multiple_lints.pn",
+                   "tests/samples/valid/unintentional_integer_truncation.pn"]
+
+
+def catalogue_samples():
+    """sample files of the tree under test: every invalid sample, then the files that raise lints (relative paths)"""
+    inv = sorted(glob.glob(os.path.join(common.REPO, "tests", "samples", "invalid", "*.pn")))
+    inv = [os.path.relpath(f, common.REPO) for f in inv]
+    lint = [f for f in LINT_CANDIDATES if os.path.exists(os.path.join(common.REPO, f))]
+    return inv, lint
+
+
+def run_catalogue(penne, root, idx, cfg, rel):
+    """one catalogue configuration: `penne SUB --out-dir <scratch> OPTIONS rel` with the repository as working directory
+    (samples may import their neighbours); nothing is written into the repository (assert_same_tree checks)"""
+    d = os.path.join(root, "d%d" % idx)
+    os.makedirs(d, exist_ok=True)
+    args = [penne, cfg["sub"], "--out-dir", d]
+    if cfg["verb"] == "verbose":
+        args.append("--verbose")
+    if cfg["color"] != "default":
+        args += ["--color", cfg["color"]]
+    if cfg["arrows"] != "default":
+        args += ["--arrows", cfg["arrows"]]
+    args.append(rel)
+    env = {k: v for k, v in os.environ.items() if k not in ("PENNE_BACKEND", "PENNE_LLI", "RUST_BACKTRACE", "NO_COLOR")}
+    env["PATH"] = os.path.join(root, "bin") + ":" + env.get("PATH", "")
+    env["FAKE_LOG"] = os.path.join(d, "backend.log")
+    env["RUST_BACKTRACE"] = "0"
+    try:
+        p = subprocess.run(args, cwd=common.REPO, env=env, stdout=subprocess.PIPE, stderr=subprocess.PIPE, timeout=60)
+        rc, out, err = p.returncode, p.stdout, p.stderr
+    except subprocess.TimeoutExpired:
+        rc, out, err = "timeout", b"", b""
+    shutil.rmtree(d, ignore_errors=True)
+    text = out.decode("utf-8", "replace") + err.decode("utf-8", "replace")
+    return {"rc": rc, "text": text, "argv": args[1:2] + args[4:]}
+
+
+def compare_catalogue(case, obs, plain_tags, source):
+    """clauses of CliDiag.tla violated by one observation"""
+    e = case["expect"]
+    out = []
+    if obs["rc"] == "timeout" or obs["rc"] < 0 or obs["rc"] == 101:
+        return None                                   # a hang / crash of the compiler is C02's business, not a rendering matter
+    tags = sorted(set(TAG.findall(ANSI.sub("", obs["text"]))))
+    if e["nonzero"] and obs["rc"] == 0:
+        out.append(("exit-status", "an invalid sample ends with status 0"))
+    if e["same_codes"] and tags != plain_tags:
+        out.append(("diagnostics", "codes %s shown, without options: %s" % (tags, plain_tags)))
+    if e["no_ansi"] and "\x1b" in obs["text"]:
+        where = next(ln for ln in obs["text"].splitlines() if "\x1b" in ln)
+        out.append(("color-never", "ESC bytes in the output under --color=never: %r" % where[:160]))
+    if e["ascii"]:
+        foreign = sorted({ch for ch in ANSI.sub("", obs["text"]) if ord(ch) > 127 and ch not in source and ch != "\ufffd"})
+        if foreign:
+            out.append(("arrows-ascii", "non-ASCII characters %s (not part of the source) under --arrows=ascii" % foreign[:6]))
+    return out
+
+
+def catalogue(rep, penne, root, tier, findings):
+    """CliDiag.tla: every sample x subcommand x --color x --arrows (x --verbose in the thorough tier)"""
+    inv, lint = catalogue_samples()
+    if len(inv) < 50:
+        raise common.ToolError("only %d invalid samples found in %s" % (len(inv), common.REPO))
+    # the reference run of every sample (emit, no options) says which codes it shows: a sample that shows an error code is
+    # a failing compilation (samples 1..NInvalid of CliDiag.tla), one that only shows lint codes compiles (the others)
+    files = inv + lint
+    plain_cfg = {"sub": "emit", "color": "default", "arrows": "default", "verb": "default"}
+    with ThreadPoolExecutor(max_workers=int(pc.THREADS)) as ex:
+        ref = list(ex.map(lambda k: run_catalogue(penne, root, 100000 + k, plain_cfg, files[k]), range(len(files))))
+    def ref_tags(o):
+        if o["rc"] == "timeout" or o["rc"] < 0 or o["rc"] == 101:
+            return []
+        return sorted(set(TAG.findall(ANSI.sub("", o["text"]))))
+    tagged = [(f, ref_tags(o)) for f, o in zip(files, ref)]
+    failing = [(f, t) for f, t in tagged if any(x.startswith("E") for x in t)]
+    lints = [(f, t) for f, t in tagged if t and not any(x.startswith("E") for x in t)]
+    undiagnosed = [f for f, t in tagged if not t]
+    samples = [f for f, _ in failing + lints]
+    plain = {k + 1: t for k, (_, t) in enumerate(failing + lints)}
+    r = common.tlc("MC_CliDiag", "MC_CliDiag_%s.cfg" % tier, workers=pc.TLC_WORKERS, timeout=900, heap="4g",
+                   env={"CLI_SAMPLES": str(len(samples)), "CLI_INVALID": str(len(failing))},
+                   tag="pipeline-clidiag-%d" % os.getpid(), keep_output=False)
+    if not r.ok or not r.cases:
+        raise common.ToolError("CliDiag.tla: %s" % (r.violated or "no cases emitted"))
+    cases = sorted(r.cases, key=lambda cs: json.dumps(cs["cfg"], sort_keys=True))
+    log("[tlc] MC_CliDiag/MC_CliDiag_%s.cfg: %d catalogue configurations (%d samples: %d show an error code, %d only lint codes; "
+        "%d files without any diagnostic or crashing are left out), %.1fs" %
+        (tier, len(cases), len(samples), len(failing), len(lints), len(undiagnosed), r.wall))
+    sources_ = [open(os.path.join(common.REPO, f), errors="replace").read() for f in samples]
+    with ThreadPoolExecutor(max_workers=int(pc.THREADS)) as ex:
+        obs = list(ex.map(lambda k: run_catalogue(penne, root, k, cases[k]["cfg"], samples[cases[k]["cfg"]["sample"] - 1]),
+                          range(len(cases))))
+    judged = agree = skipped = 0
+    codes = set()
+    never = 0
+    for cs, o in zip(cases, obs):
+        c = cs["cfg"]
+        tags = plain.get(c["sample"])
+        if not tags:
+            skipped += 1
+            continue
+        problems = compare_catalogue(cs, o, tags, sources_[c["sample"] - 1])
+        if problems is None:
+            skipped += 1
+            continue
+        judged += 1
+        codes.update(tags)
+        never += 1 if cs["expect"]["no_ansi"] else 0
+        if not problems:
+            agree += 1
+        for clause, msg in problems:
+            rel = samples[c["sample"] - 1]
+            findings.add((clause,), "cli", "catalogue/%s | %s sub=%s color=%s arrows=%s verb=%s" % (clause, rel, c["sub"], c["color"], c["arrows"], c["verb"]),
+                         {"part": "catalogue", "case": cs, "sample": rel, "observed": {"rc": o["rc"], "argv": o["argv"], "text": o["text"][-1500:]},
+                          "message": msg, "how": "bin/check C18 --replay <this file>"})
+    log("[replay] catalogue: %d configurations judged (%d skipped: compiler crash or no diagnostic), %d agree with CliDiag on every clause; "
+        "%d distinct codes rendered, %d runs under --color=never" % (judged, skipped, agree, len(codes), never))
+    if judged < 1000 or len(codes) < 60:
+        raise common.ToolError("catalogue pass is vacuous: %d configurations, %d codes" % (judged, len(codes)))
+    return {"configurations": len(cases), "judged": judged, "skipped": skipped, "agree": agree, "samples": len(samples),
+            "samples_with_error_code": len(failing), "samples_with_lints_only": len(lints), "files_left_out": undiagnosed[:20],
+            "distinct_codes": len(codes), "color_never_runs": never, "tlc_states": r.distinct}
+
+
 def pairwise(cases, rnd):
     """greedy cover of all value pairs that occur in the (constrained) product"""
     need = set()
@@ -275,6 +405,7 @@ def run(rep, tier, seed, selftest):
             findings.add((clause,), "cli", "%s | %s" % (clause, canon(case["cfg"])),
                          {"case": case, "observed": {k: (v if not isinstance(v, str) else v[-800:]) for k, v in obs.items() if k != "ll"},
                           "ll_files": sorted(obs["ll"]), "message": msg, "how": "bin/check C18 --replay <this file>"})
+    cat = catalogue(rep, penne, root, tier, findings)
     # classified, not part of the product: an absolute input path (the property quantifies over relative ones)
     probe = os.path.join(root, "abs")
     os.makedirs(probe)
@@ -329,6 +460,7 @@ def run(rep, tier, seed, selftest):
         "pairwise_cover": n_pair,
         "agree": agree,
         "clauses_violated": findings.counts(),
+        "catalogue": cat,
         "selftests": self_results,
     }
     assumptions = [
@@ -348,6 +480,22 @@ def replay(path):
     case = d["detail"]["case"]
     print("expect: ", json.dumps(case["expect"]))
     penne = pc.build_penne()
+    if d["detail"].get("part") == "catalogue":
+        root = os.path.join(common.WORK, "pipeline-cli-replay-%d" % os.getpid())
+        os.makedirs(root, exist_ok=True)
+        make_backends(root)
+        rel = d["detail"]["sample"]
+        plain = run_catalogue(penne, root, 0, dict(case["cfg"], sub="emit", color="default", arrows="default", verb="default"), rel)
+        obs = run_catalogue(penne, root, 1, case["cfg"], rel)
+        shutil.rmtree(root, ignore_errors=True)
+        print("argv:   ", " ".join(obs["argv"]), "(working directory: the repository)")
+        print("status: ", obs["rc"])
+        print("output:\n" + obs["text"][-2500:])
+        tags = sorted(set(TAG.findall(ANSI.sub("", plain["text"]))))
+        source = open(os.path.join(common.REPO, rel), errors="replace").read()
+        for clause, msg in (compare_catalogue(case, obs, tags, source) or []):
+            print("DISCREPANCY %s: %s" % (clause, msg))
+        return 0
     root = os.path.join(common.WORK, "pipeline-cli-replay-%d" % os.getpid())
     os.makedirs(root, exist_ok=True)
     make_backends(root)
